@@ -10,6 +10,7 @@ A case is {"k": 1, "tsn": [client_tsn, server_tsn], "ops": [...], "heal": bool};
   [6, ep, chan]                close channel
   [7, ms]                      advance the virtual clock by ms milliseconds
   [8, ep, chan, threshold]     set bufferedAmountLowThreshold
+  [13, dst, k]                 deliver a long-delayed duplicate of the k-th datagram ever sent towards dst
   [9]                          fault-free interlude: deliver everything in flight FIFO (no timers)
 The run ends with an optional healing phase (fault-free delivery, timers when idle).
 Returns a JSON-able observation dict used by the oracles of C01, C02, C06, C13, C17.
@@ -135,6 +136,11 @@ async def _run(case):
                         sim.channels[op[1]][op[2]].bufferedAmountLowThreshold = op[3]
                     except ValueError:
                         pass
+            elif t == 13:
+                # a long-delayed duplicate: deliver a copy of the k-th datagram ever sent towards op[1]
+                log = sim.sent_log[1 - op[1]]
+                if log:
+                    await sim.inject(op[1], log[op[2] % len(log)])
             elif t == 11:
                 # probe: one small unique message on every open channel, both directions
                 for ep_ in (0, 1):
@@ -252,6 +258,10 @@ def gen_scenario(rng, reliable_only=False, pr=False, origins=None, nops=None, bi
     origins = origins or [7, 0xFFFFFFF0, 0x7FFFFFF0, 0xFFFFFF00, 0, 0xFFFFFFFF]
     tsn = [rng.choice(origins), rng.choice(origins)]
     ops = []
+    early = rng.random() < 0.25      # faults already during association set-up (duplicated INIT / COOKIE-ECHO ...)
+    if early:
+        for _ in range(rng.randrange(4, 12)):
+            ops.append(rng.choice([[2, 0, 0], [2, 1, 0], [4, 0, 0], [4, 1, 0], [2, 1, 1], [4, 1, 1]]))
     nchan = rng.randrange(1, 4)
     kinds = [0, 1] if reliable_only else ([0, 1, 2, 3, 4, 5, 6] if pr else [0, 1, 0, 1, 2, 4])
     chans = {0: 0, 1: 0}
@@ -276,11 +286,16 @@ def gen_scenario(rng, reliable_only=False, pr=False, origins=None, nops=None, bi
             ops.append([2, rng.randrange(2), rng.choice([0, 0, 0, 1, 2, 5])])
         elif k < 0.95:
             ops.append([5, rng.randrange(2)])
-        elif k < 0.97:
+        elif k < 0.965:
+            ops.append([13, rng.randrange(2), rng.choice([0, 0, 1, 2, 3, rng.randrange(40)])])
+        elif k < 0.975:
             ops.append([7, rng.choice([100, 600, 3000])])
         else:
             ops.append([9])
-    return {"k": 1, "tsn": tsn, "ops": ops, "heal": True}
+    case = {"k": 1, "tsn": tsn, "ops": ops, "heal": True}
+    if early:
+        case["handshake"] = False
+    return case
 
 
 # ------------------------------------------------------------------ shared oracle helpers
